@@ -33,6 +33,10 @@ Throwable::~Throwable() {
 
 PPL_TLS abandon_type abandon_expensive_computations(nullptr);
 
+#ifdef PPL_VERIF
+void (*verif_abandon_hook)() = nullptr;
+#endif
+
 // Initialize Weightwatch_Traits static data members.
 // FIXME: current implementation is not thread-safe.
 Weightwatch_Traits::Threshold Weightwatch_Traits::weight = 0;
